@@ -3,12 +3,11 @@
    Definitions only; ends with the wire codec `run` for all C13 models (QnMatch, Privacy, and the
    Spec.Glob / Spec.ReFrag entry points used for spec validation). *)
 From Coq Require Import ZArith NArith List Bool.
-From PydoctorVerif Require Import Base.Sexp Spec.ReFrag Spec.Glob Model.QnMatch.
+From PydoctorVerif Require Import Base.Sexp Spec.ReFrag Spec.Glob Spec.PrivacySpec Model.QnMatch.
 Import ListNotations.
 Local Open Scope N_scope.
 
-(* class PrivacyClass(Enum): HIDDEN = 0, PRIVATE = 1, PUBLIC = 2, VISIBLE = PUBLIC *)
-Inductive priv : Type := HIDDEN | PRIVATE | PUBLIC.
+(* class PrivacyClass(Enum): HIDDEN = 0, PRIVATE = 1, PUBLIC = 2, VISIBLE = PUBLIC  -- the type `priv` of Spec.PrivacySpec *)
 
 Fixpoint text_eqb (a b : text) : bool :=
   match a, b with
@@ -25,7 +24,7 @@ Record obj : Type := {
   o_is_module : bool    (* isinstance(ob, Module)  (packages are Modules too) *)
 }.
 
-Definition rule : Type := priv * text.     (* options.privacy: list of (PrivacyClass, pattern) in command-line order *)
+(* options.privacy: list of (PrivacyClass, pattern) in command-line order = list rule *)
 
 (* str.startswith / str.endswith *)
 Fixpoint starts_with (pre s : text) : bool :=
